@@ -1,3 +1,3 @@
-CONSTANT Want = {"C11_Halts", "C11_AllReturn", "C11_TraceAccepted"}
+CONSTANT Want = {"C11_Halts", "C11_HaltsVsAgreedDisks", "C11_AllReturn", "C11_TraceAccepted"}
 SPECIFICATION TSpec
 CHECK_DEADLOCK FALSE
